@@ -230,7 +230,7 @@ def prefixOK : List Slot → Bool
 /-- what the theorems need of a (regenerated) table; decidable, re-checked by the kernel on every run -/
 def TableOK (T : FileType) : Prop :=
   (T.slots.map (·.num)).Nodup ∧ T.slots.all (fun s => s.kind != .dropped) = true ∧ T.dropped = [] ∧
-  prefixOK T.slots = true ∧ 3 ≤ T.sortFrom
+  prefixOK T.slots = true ∧ 3 ≤ T.sortFrom ∧ T.slots.all (fun s => s.kind == s.decl) = true
 
 instance (T : FileType) : Decidable (TableOK T) := by unfold TableOK; infer_instance
 
@@ -239,7 +239,7 @@ theorem slotOf_mem {T : FileType} {n : Nat} {s : Slot} (h : slotOf T n = some s)
   exact ⟨List.mem_of_find?_eq_some h, by simpa using List.find?_some h⟩
 
 theorem noDrop {T : FileType} (h : TableOK T) (n : Nat) : isDropped T n = false := by
-  obtain ⟨_, hk, hd, _, _⟩ := h
+  obtain ⟨_, hk, hd, _, _, _⟩ := h
   unfold isDropped
   split
   · rename_i s hs
@@ -257,6 +257,19 @@ theorem build_eq_survivors (T : FileType) (msgs : List Msg) : build T msgs = sur
   rw [List.foldl_map] at h
   simp only [List.filter_nil, List.nil_append] at h
   exact h
+
+theorem isSingleDecl_eq {T : FileType} (h : TableOK T) (n : Nat) : isSingleDecl T n = isSingle T n := by
+  unfold isSingleDecl isSingle
+  split
+  · rename_i s hs
+    have := List.all_eq_true.mp h.2.2.2.2.2 s (slotOf_mem hs).1
+    rw [← (beq_iff_eq.mp this)]
+  · rfl
+
+theorem keepLastDecl_eq {T : FileType} (h : TableOK T) (l : List Msg) : keepLastDecl T l = keepLast T l := by
+  induction l with
+  | nil => rfl
+  | cons m rest ih => simp only [keepLastDecl, keepLast, isSingleDecl_eq h, ih]
 
 /-- the file keeps exactly: every message (normalised by its typed struct), except that of the messages of a
 single-valued slot only the last survives — in arrival order -/
@@ -405,7 +418,7 @@ theorem slotMsgs_default (T : FileType) (f : File) (s : Slot) (hk : s.kind = .va
 theorem tableOK_slots {T : FileType} (h : TableOK T) : ∃ s0 s1 s2 rest, T.slots = s0 :: s1 :: s2 :: rest ∧
     s0.num = mesgNumFileId ∧ s0.kind = .value ∧ s1.num = mesgNumDeveloperDataId ∧ s1.kind = .list ∧
     s2.num = mesgNumFieldDescription ∧ s2.kind = .list ∧ ∀ s ∈ rest, s.kind ≠ .value := by
-  obtain ⟨_, _, _, hp, _⟩ := h
+  obtain ⟨_, _, _, hp, _, _⟩ := h
   match hs : T.slots with
   | [] => rw [hs] at hp; simp [prefixOK] at hp
   | [_] => rw [hs] at hp; simp [prefixOK] at hp
@@ -477,7 +490,7 @@ theorem toFIT_split {T : FileType} (h : TableOK T) (f : File) :
       (((restGroups T f).take (T.sortFrom - 3)).flatten ++ sortStable ((restGroups T f).drop (T.sortFrom - 3)).flatten))) := by
   obtain ⟨s0, s1, s2, rest, hsl, _⟩ := tableOK_slots h
   refine ⟨s0, s1, s2, rest, hsl, ?_⟩
-  obtain ⟨k, hk⟩ : ∃ k, T.sortFrom = k + 3 := ⟨T.sortFrom - 3, by have := h.2.2.2.2; omega⟩
+  obtain ⟨k, hk⟩ : ∃ k, T.sortFrom = k + 3 := ⟨T.sortFrom - 3, by have := h.2.2.2.2.1; omega⟩
   unfold toFIT restGroups
   have hg : groups T f = slotMsgs T f s0 :: slotMsgs T f s1 :: slotMsgs T f s2 :: (rest.map (slotMsgs T f) ++ [unrelated T f]) := by
     unfold groups; rw [hsl]; rfl
